@@ -1,7 +1,77 @@
 //! Specs of the concurrency, liveness and tools checks.
 
-use crate::batch::CheckSpec;
+use crate::batch::{CheckSpec, ProfileSpec};
+use crate::exec::RunOutcome;
+use crate::plan::*;
 
-pub fn spec_for3(_property: &str) -> Option<CheckSpec> {
-    None
+fn p(name: &'static str, weight: u32) -> ProfileSpec {
+    ProfileSpec { name, weight }
+}
+
+fn nt_conc(plan: &Plan, out: &RunOutcome) -> bool {
+    // at least two clients, a read overlapped a write on its key, and a blob switch happened
+    plan.sessions[0].clients.len() >= 2 && out.probes.get("reads_overlapping_a_write") >= 1 && out.probes.get("index_marked_complete") >= 1
+}
+
+fn nt_live(_plan: &Plan, out: &RunOutcome) -> bool {
+    out.probes.get("probe_rotated") + out.probes.get("probe_not_rotated") >= 1 && (out.probes.get("nonapplicable_bg_request") >= 1 || out.fired.get("clock_jump") >= 1 || out.probes.get("try_close_active_blob_ok") >= 1)
+}
+
+fn nt_tools(_plan: &Plan, out: &RunOutcome) -> bool {
+    out.probes.get("tools_blob_examined") >= 1 && out.probes.get("tools_recovery_run") >= 3
+}
+
+const A_COMMON: [&str; 3] = [
+    "interleaving granularity is the await point plus the buggify yield sites (incl. a yield before every storage-level and blob-level lock acquisition when enabled); two blocking closures never overlap inside their bodies",
+    "sampling, not enumeration: a clean batch is evidence, not proof",
+    "directory operations during init (read_dir, rename, create_dir, remove_file) are real tokio::fs calls, not faulted",
+];
+
+pub fn spec_for3(property: &str) -> Option<CheckSpec> {
+    let mut a = A_COMMON.to_vec();
+    Some(match property {
+        "C08" => CheckSpec {
+            property: "C08".into(),
+            level: "exploration",
+            profiles: vec![p("conc", 10), p("conc-burst", 2), p("conc-big", 1)],
+            quick_runs: 6_000,
+            thorough_runs: 300_000,
+            quick_budget_s: 90,
+            thorough_budget_s: 600,
+            nontrivial_rule: "N client tasks (2..24; conc-big 100..1200; conc-burst = channel capacity + 3.. released in one tick against a full, aged active blob) over <= 6 keys with unique values, plus a maintenance client (try_close/restore/create, fsync, free_excess, background close), rotation every few records, background dumps and syncs, both I/O modes, seeded latencies and stalls, buggify yields incl. before lock acquisitions, channel capacity in {1,4,64,1024}; a second concurrent phase runs on the reopened (append-mode) blobs; then restart and a sequential tail. Oracles: linearizability condition per completed read/contains (never older than every write acknowledged before it started, never a value not written to that key), exactly one complete record per acknowledged write, records contiguous and whole with embedded offset = physical offset, watchdog (no client pending when nothing is runnable for 4 simulated hours), model equality at quiescence and after restart. Non-trivial = >= 2 clients, at least one read overlapped a write to its key, and an index was dumped (blob switch); distinct = distinct I/O event signature",
+            nontrivial: nt_conc,
+            assumptions: a,
+            expected_probes: vec!["reads_overlapping_a_write", "buggify_yield", "job_stall"],
+        },
+        "C13" => {
+            a.push("liveness bounds are stated in simulated time and only after faults have stopped: no disk stalls in this profile; rotation within 60 probe writes (one every 300 simulated ms), index files present after idling deferred_max + 1.5 s, close() within 60 simulated seconds");
+            CheckSpec {
+                property: "C13".into(),
+                level: "exploration",
+                profiles: vec![p("live", 1)],
+                quick_runs: 8_000,
+                thorough_runs: 400_000,
+                quick_budget_s: 60,
+                thorough_budget_s: 600,
+                nontrivial_rule: "seeded sequences of public calls in every active-blob state: all *_in_background requests whether or not they apply, force_update with three predicates, data operations, free_excess_resources, fsync, idle periods around the deferred-dump times, wall-clock jumps of +-1 s and +-1 h; then the overflow probe, an idle period longer than deferred_max, and close. Oracle: the active blob is switched within the probe, every closed blob with records has an up-to-date index file, close() returns within the bound, no task panics. Non-trivial = the probe ran after at least one non-applicable background request, clock jump or manual close; distinct = distinct I/O event signature",
+                nontrivial: nt_live,
+                assumptions: a,
+                expected_probes: vec!["nonapplicable_bg_request", "probe_rotated", "clock_jump"],
+            }
+        }
+        "C16" => CheckSpec {
+            property: "C16".into(),
+            level: "fault_enumeration",
+            profiles: vec![p("tools", 1)],
+            quick_runs: 1_500,
+            thorough_runs: 60_000,
+            quick_budget_s: 75,
+            thorough_budget_s: 600,
+            nontrivial_rule: "blobs and index files produced by seeded simulated histories (rotation, deletes into closed blobs, restarts) are handed to the real tools outside the simulator: validate_blob / validate_index / read_index must accept them and read_index must list exactly the trace-derived headers; migrate_blob to the current version must be byte-identical; then per blob: truncation at sampled lengths plus structural boundaries (thorough tools-full: every length of blobs <= 3000 bytes) and one <= 32-bit burst per sampled (record, class in header/meta/data/blob magic): the validators must reject (except cuts at record boundaries and meta bytes, which no checksum covers), recovery_blob (validate_every in {0,1,2,3,1000}, skipping on/off) must produce a blob that validates, and a storage opened on it must serve every intact record before the damage (and after an isolated damaged record when skipping) with its original bytes. Non-trivial = at least one blob examined and >= 3 recovery runs; distinct = distinct I/O event signature of the producing history",
+            nontrivial: nt_tools,
+            assumptions: vec!["the tools are real code run outside the simulator on a plain thread; this property has no scheduling component and qualifies for the technique only through stored-byte faults and the storage-on-output oracle", "sampling, not enumeration of histories; damage positions are sampled per blob in the quick tier"],
+            expected_probes: vec!["tools_recovery_run", "tool_truncation", "tool_flip_rec_header", "tool_flip_data"],
+        },
+        _ => return None,
+    })
 }
